@@ -30,7 +30,7 @@ computes exactly the set operation; this module decides instance-of.
 import ast
 
 from ..model import text, AnalysisError
-from ..cfg import cfg_of, guards, enclosing_stmt, is_within, block_always_leaves
+from ..cfg import cfg_of, guards, enclosing_stmt, is_within, block_always_leaves, parent_block
 from ..effects import is_tree_loc, STATS_LOCS
 from .. import pat
 
@@ -363,6 +363,20 @@ def _arity_vars(it, A, B):
     return out
 
 
+def _def_at(ctx, it, e, env):
+    """Defining expression of a Name; inside a local `def` the closure
+    variable is looked up where the def stands (env['#at'])."""
+    v = pat.single_def(ctx, it, e)
+    at = env.get("#at")
+    if v is None and at is not None:
+        facts, is_param = ctx.ty.facts_at(it, e.id, at)
+        facts = [fa for fa in facts if fa.kind != "add"]
+        if not is_param and len(facts) == 1 and facts[0].kind == "expr" and \
+                not facts[0].path and not isinstance(facts[0].stmt, ast.AugAssign):
+            v = facts[0].value
+    return v
+
+
 def _tuple_len(ctx, it, e, env, depth=0):
     """Symbolic length of a tuple-valued expression as a linear form over
     {'1', 'A', 'B'} (arity of side A / B), or None."""
@@ -388,7 +402,10 @@ def _tuple_len(ctx, it, e, env, depth=0):
     if isinstance(e, ast.Name):
         if e.id in env:
             return env[e.id]
-        v = pat.single_def(ctx, it, e)
+        if e.id in env.get("#params", {}):
+            cf, cenv = env["#caller"]
+            return _tuple_len(ctx, cf, env["#params"][e.id], cenv, depth + 1)
+        v = _def_at(ctx, it, e, env)
         if v is not None:
             return _tuple_len(ctx, it, v, env, depth + 1)
     return None
@@ -402,7 +419,10 @@ def _int_lin(ctx, it, e, env, depth=0):
     if isinstance(e, ast.Name):
         if e.id in env.get("#arity", {}):
             return {env["#arity"][e.id]: 1}
-        v = pat.single_def(ctx, it, e)
+        if e.id in env.get("#params", {}):
+            cf, cenv = env["#caller"]
+            return _int_lin(ctx, cf, env["#params"][e.id], cenv, depth + 1)
+        v = _def_at(ctx, it, e, env)
         if v is not None:
             return _int_lin(ctx, it, v, env, depth + 1)
         return None
@@ -440,13 +460,16 @@ def _padding(ctx, it, A, B):
                 bind = {}
                 for prm, a in zip(h.params, c.args):
                     bind[prm] = text(a)
+                    bind["#ast:" + prm] = a
                 for kw in c.keywords:
                     if kw.arg:
                         bind[kw.arg] = text(kw.value)
+                        bind["#ast:" + kw.arg] = kw.value
                 if any(len(ctx.ty.facts_at(h, prm, h.node.body[-1])[0]) > 0
-                       for prm in bind):
+                       for prm in bind if not prm.startswith("#")):
                     continue    # a rebound parameter: not a pure renaming
-                hav = {prm: av[t] for prm, t in bind.items() if t in av}
+                hav = {prm: av[t] for prm, t in bind.items()
+                       if isinstance(t, str) and t in av}
                 outer = list(guards(enclosing_stmt(c)))
                 for pc in h.own_nodes():
                     if isinstance(pc, ast.Call) and isinstance(pc.func, ast.Attribute) \
@@ -463,6 +486,26 @@ def _padding(ctx, it, A, B):
                     isinstance(fa.value, ast.Lambda) for fa in facts):
                 for fa in facts:
                     expanded.append((host, c, bind, outer, hav, fa.value, fa.stmt))
+                continue
+            # ... or local one-expression functions of that name defined in
+            # the same branch (`def widen(c): return ..` under if / else)
+            defs = [d for d in host.own_nodes() if isinstance(d, ast.FunctionDef)
+                    and d.name == lam.id]
+            pb = parent_block(enclosing_stmt(c))
+            here_ = [d for d in defs if pb is not None and any(
+                d is s_ or is_within(d, s_) for s_ in pb[0])]
+            shaped = []
+            for d in here_:
+                body = [b for b in d.body if not (isinstance(b, ast.Expr) and
+                                                  isinstance(b.value, ast.Constant))]
+                if len(body) == 1 and isinstance(body[0], ast.Return) and \
+                        body[0].value is not None and not d.args.vararg and not d.args.kwarg:
+                    lm = ast.Lambda(args=d.args, body=body[0].value)
+                    ast.copy_location(lm, d)
+                    shaped.append((lm, d))
+            if not is_param and not facts and shaped and len(shaped) == len(here_):
+                for lm, d in shaped:
+                    expanded.append((host, c, bind, outer, hav, lm, d))
                 continue
         expanded.append((host, c, bind, outer, hav, lam, None))
     for host, c, bind, outer, hav, lam, lam_stmt in expanded:
@@ -515,9 +558,19 @@ def _padding(ctx, it, A, B):
             continue
         prm = lam.args.args[0].arg
         env = {"#arity": hav}
+        if isinstance(lam_stmt, ast.FunctionDef):
+            env["#at"] = lam_stmt
+        if host is not it:
+            # parameters of the helper stand for the call site's arguments
+            env["#params"] = {k[5:]: v for k, v in bind.items() if k.startswith("#ast:")}
+            env["#caller"] = (it, {"#arity": av})
         if is_int is False:
             env[prm] = {side.tag: 1}
         got = _tuple_len(ctx, host, lam.body, env)
+        if is_int and got is not None and side.tag in got:
+            # an int head has arity 1 by the definition of the arity variable
+            got = _lin_add({k: v for k, v in got.items() if k != side.tag},
+                           {"1": got[side.tag]})
         kind = "int" if is_int else "tuple" if is_int is False else "unknown-kind"
         want = {other.tag: 1}
         if got == want:
